@@ -562,6 +562,92 @@ def run(db: DB, rep: Report) -> None:
     if n_k8 < 5:
         raise AnalysisError("fewer than 5 rank-dependence loops found (%d)" % n_k8)
 
+    # ---- K9 builder loops cover their whole collection ----------------------------
+    rep.rule("K9", "a builder loop that adds dependence edges per element covers the whole collection", 8)
+    from sa.rules.c18 import _early_exits_before, _narrow_iter
+    for f in fg.methods.values():
+        for lp in [n for n in walk_no_nested(f.node) if isinstance(n, ast.For)]:
+            work = [x for s_ in lp.body for x in ast.walk(s_) if isinstance(x, ast.Call) and
+                    isinstance(x.func, ast.Attribute) and
+                    (x.func.attr == "add_edge" or (x.func.attr.startswith("__") and
+                                                   norm(x.func.value) == "self"))]
+            if not work:
+                continue
+            first = work[0]
+            st = first
+            while not isinstance(st, ast.stmt):
+                st = st.parent
+            exits = [x for w in work[:1] for x in _early_exits_before(lp, st)]
+            # and after the first piece of work: a bare conditional break anywhere in the body
+            for x in ast.walk(lp):
+                if isinstance(x, ast.Break) and x not in exits:
+                    inner = [p_ for p_ in paths.parents(x, lp) if isinstance(p_, (ast.For, ast.While))]
+                    _, _, blk = paths.block_of(x)
+                    if not inner and blk and blk[0] is x:
+                        exits.append(x)
+            why = _narrow_iter(lp.iter)
+            rep.check("K9", not exits and why is None, db.loc(lp), f.short, "loop:" + norm(lp.iter)[:50],
+                      "loop over %s adds edges for every element" % norm(lp.iter)[:50],
+                      "the loop over %s in %s, which adds the dependence edges of each element, %s: the "
+                      "remaining elements get no edges, so their statements are no longer ordered after "
+                      "what they read" % (norm(lp.iter)[:50], f.short,
+                                          why or ("can be left by the bare %s at %s" %
+                                                  (type(exits[0]).__name__.lower(), db.loc(exits[0]))
+                                                  if exits else "")))
+
+    # ---- K10 no edge is built from the last element of a finished loop -----------------
+    rep.rule("K10", "a dependence edge is not built from what a finished per-element loop left behind", 20)
+    for f in fg.methods.values():
+        params = set(f.call_params) | {"self"}
+        loops = [n for n in walk_no_nested(f.node) if isinstance(n, ast.For)]
+        for e in [n for n in walk_no_nested(f.node) if isinstance(n, ast.Call) and
+                  isinstance(n.func, ast.Attribute) and n.func.attr == "add_edge"]:
+            names = set()
+            for a in e.args:
+                names |= paths.load_names(a)
+            # one step of local flow is what the builders use (fiber_name = ...; add_edge(FiberNode(fiber_name)))
+            nms, _ = paths.backward_slice(f.node, sorted(names), with_control=False)
+            names |= nms
+            stale = []
+            for lp in loops:
+                if any(p_ is lp for p_ in paths.parents(e, f.node)):
+                    continue            # the edge is built inside this loop
+                if not (lp.lineno < e.lineno):
+                    continue
+                if any(isinstance(x, ast.Break) for x in ast.walk(lp)):
+                    continue            # a search loop: what it found is meant to be used afterwards
+                inner = {x.id for x in ast.walk(lp) if isinstance(x, ast.Name) and isinstance(x.ctx, ast.Store)}
+                outside = {x.id for x in walk_no_nested(f.node) if isinstance(x, ast.Name) and
+                           isinstance(x.ctx, ast.Store) and not any(p_ is lp for p_ in paths.parents(x, f.node))}
+                only = (inner - outside - params) & names
+                if not only:
+                    continue
+                # the uses of these names that feed the edge lie after the loop?
+                feeds_after = False
+                for x in walk_no_nested(f.node):
+                    if isinstance(x, ast.Name) and isinstance(x.ctx, ast.Load) and x.id in only and \
+                            not any(p_ is lp for p_ in paths.parents(x, f.node)) and x.lineno > lp.lineno:
+                        feeds_after = True
+                if not feeds_after:
+                    continue
+                # exempt: the edge is built only when the loop's collection has a single element
+                single = False
+                for t, pol in paths.guards(e, stop=f.node):
+                    for a, p_ in paths.conjuncts(t, pol):
+                        txt = norm(a)
+                        it = norm(lp.iter)
+                        if (txt == "len(%s) > 1" % it and not p_) or (txt == "len(%s) == 1" % it and p_) or \
+                                (txt == "len(%s) != 1" % it and not p_):
+                            single = True
+                if not single:
+                    stale.append((lp, sorted(only)))
+            rep.check("K10", not stale, db.loc(e), f.short, "edge:" + norm(e)[:60],
+                      "edge %s uses no left-over of a finished loop" % norm(e)[:50],
+                      "the edge %s is built after the loop over %s has finished, from %s, which that loop "
+                      "assigns per element: only the last element gets its dependence edge, the statements "
+                      "of the others are free to be ordered before what they read" %
+                      (norm(e)[:70], norm(stale[0][0].iter)[:40] if stale else "", stale[0][1] if stale else ""))
+
     # ---- K4 hoist guard --------------------------------------------------------
     rep.rule("K4", "hoisting is guarded by non-descendance of the processed loop and inserts at its index", 1)
     _check_hoist(db, rep, fg)
@@ -671,37 +757,62 @@ def _check_chain(db: DB, rep: Report, fg: ClassInfo, tn: FuncInfo) -> None:
     cname = (chains[0].targets[0] if isinstance(chains[0], ast.Assign) else chains[0].target).id
     order_names = {n.targets[0].id for n in walk_no_nested(fn) if isinstance(n, ast.Assign) and
                    isinstance(n.targets[0], ast.Name) and "get_loop_order" in paths.called_names([n.value])}
-    seq = []
-    _, _, blk = paths.block_of(chains[0])
-    idx = blk.index(chains[0])
-    for s_ in blk[idx + 1:]:
-        if isinstance(s_, ast.For) and len(s_.body) == 1:
-            c = s_.body[0]
-            call = c.value if isinstance(c, ast.Expr) else None
-            if isinstance(call, ast.Call) and norm(call.func) == cname + ".append" and \
-                    isinstance(call.args[0], ast.Call) and isinstance(s_.target, ast.Name) and \
-                    norm(call.args[0].args[0]) == s_.target.id:
-                it = s_.iter
-                rev = isinstance(it, ast.Call) and norm(it.func) == "reversed"
-                base = it.args[0] if rev else it
-                if isinstance(base, ast.Name) and base.id in order_names:
-                    seq.append(("rev:" if rev else "fwd:") + norm(call.args[0].func))
-                    continue
-            if cname in paths.load_names(s_) and "append" in paths.called_names([s_]):
-                raise AnalysisError("the loop chain is extended at %s in a form this checker does not "
-                                    "recognise; it cannot decide rule K3" % db.loc(s_))
-            break
-        elif isinstance(s_, ast.Expr) and isinstance(s_.value, ast.Call) and \
-                norm(s_.value.func) == cname + ".append":
-            seq.append(norm(s_.value.args[0]))
-        else:
-            if cname in paths.load_names(s_) and any(
-                    isinstance(x, (ast.Assign, ast.AugAssign)) and cname in
-                    {getattr(t, "id", None) for t in (x.targets if isinstance(x, ast.Assign) else [x.target])}
-                    for x in ast.walk(s_)):
-                raise AnalysisError("the loop chain is rebuilt at %s in a form this checker does not "
-                                    "recognise; it cannot decide rule K3" % db.loc(s_))
-            break
+    def chain_seq(start: ast.stmt, cname: str) -> List[str]:
+        seq: List[str] = []
+        _, _, blk = paths.block_of(start)
+        idx = blk.index(start)
+        for s_ in blk[idx + 1:]:
+            if isinstance(s_, ast.For) and len(s_.body) == 1:
+                c = s_.body[0]
+                call = c.value if isinstance(c, ast.Expr) else None
+                if isinstance(call, ast.Call) and norm(call.func) == cname + ".append" and \
+                        isinstance(call.args[0], ast.Call) and isinstance(s_.target, ast.Name) and \
+                        norm(call.args[0].args[0]) == s_.target.id:
+                    it = s_.iter
+                    rev = isinstance(it, ast.Call) and norm(it.func) == "reversed"
+                    base = it.args[0] if rev else it
+                    if isinstance(base, ast.Name) and base.id in order_names:
+                        seq.append(("rev:" if rev else "fwd:") + norm(call.args[0].func))
+                        continue
+                if cname in paths.load_names(s_) and "append" in paths.called_names([s_]):
+                    raise AnalysisError("the chain %s is extended at %s in a form this checker does not "
+                                        "recognise; it cannot decide rule K3" % (cname, db.loc(s_)))
+                break
+            elif isinstance(s_, ast.Expr) and isinstance(s_.value, ast.Call) and \
+                    norm(s_.value.func) == cname + ".append":
+                seq.append(norm(s_.value.args[0]))
+            else:
+                if cname in paths.load_names(s_) and any(
+                        isinstance(x, (ast.Assign, ast.AugAssign)) and cname in
+                        {getattr(t, "id", None) for t in (x.targets if isinstance(x, ast.Assign) else [x.target])}
+                        for x in ast.walk(s_)):
+                    raise AnalysisError("the chain %s is rebuilt at %s in a form this checker does not "
+                                        "recognise; it cannot decide rule K3" % (cname, db.loc(s_)))
+                break
+        return seq
+    seq = chain_seq(chains[0], cname)
+    # every other chain of per-rank bracket nodes that is spliced into the loop chain
+    # (the metrics headers / footers) opens in loop order and closes in reverse order
+    for n in walk_no_nested(fn):
+        if n is chains[0] or not isinstance(n, (ast.Assign, ast.AnnAssign)) or \
+                not isinstance(getattr(n, "value", None), ast.List):
+            continue
+        tgt = n.targets[0] if isinstance(n, ast.Assign) else n.target
+        if not isinstance(tgt, ast.Name):
+            continue
+        sq = chain_seq(n, tgt.id)
+        per_rank = [x for x in sq if x.startswith(("fwd:", "rev:"))]
+        if len(per_rank) < 2:
+            continue
+        shape = [x[:4] for x in sq if x.startswith(("fwd:", "rev:"))]
+        rep.check("K3", shape == ["fwd:", "rev:"] and len(sq) == 3 and not sq[1].startswith(("fwd:", "rev:")),
+                  db.loc(n), bl.short, "chain-order:" + tgt.id,
+                  "chain %s = per-rank nodes in loop order, a body node, per-rank nodes in reverse order (%s)"
+                  % (tgt.id, sq),
+                  "the chain %s that is spliced into the loop nest element by element is built as %s: its "
+                  "per-rank nodes do not open in loop order and close in reverse order, so the node of one "
+                  "loop is ordered at the position of another loop (its statement is emitted outside the "
+                  "loops that bind what it reads)" % (tgt.id, sq))
     want = ["fwd:LoopNode", "OtherNode('Body')", "rev:EndLoopNode", "OtherNode('Footer')"]
     rep.check("K3", seq == want, db.loc(chains[0]), bl.short, "chain-order",
               "chain = StartLoop, loops in loop order, Body, ends in reverse order, Footer (%s)" % seq,
@@ -930,6 +1041,17 @@ def mutants(db: DB):
     fnodes = "teaal/ir/flow_nodes.py"
     hf = "teaal/trans/hifiber.py"
     return [
+        M("metrics headers chained in reverse", fg,
+          "            for rank in loop_order:\n                metrics_chain.append(MetricsHeaderNode(rank))",
+          "            for rank in reversed(loop_order):\n                metrics_chain.append(MetricsHeaderNode(rank))",
+          "K3"),
+        M("fiber-node scan stops at the first exhausted tensor", fg,
+          "            rank = tensor.peek()\n            if rank is None:\n                continue",
+          "            rank = tensor.peek()\n            if rank is None:\n                break", "K9"),
+        M("eager-input fiber edge after the per-tensor loop", fg,
+          "            # Add that fiber to the eager input\n            fiber_name = tname.lower() + \"_\" + trank_root + \"1\"\n            self.graph.add_edge(FiberNode(fiber_name), eager_input_node)",
+          "        # Add that fiber to the eager input\n        fiber_name = tname.lower() + \"_\" + trank_root + \"1\"\n        self.graph.add_edge(FiberNode(fiber_name), eager_input_node)",
+          "K10"),
         M("SwizzleNode key drops type", fnodes, "return self.tensor, self.ranks, self.type",
           "return self.tensor, self.ranks", "K1"),
         M("PartNode key drops ranks", fnodes,
